@@ -508,7 +508,7 @@ Example linted_overlap :
   = Some [(Rel, [n_asql]); (Rel, [n_sub; n_temp; n_bsql]); (Rel, [n_temp; n_bsql]); (Rel, [n_sub; n_xhql])].
 Proof. vm_compute. reflexivity. Qed.
 
-(** Before 8726e28: "temp/" did not exclude temp/b.sql (the pattern list was matched against the file only). *)
+(** Before a094b5b: "temp/" did not exclude temp/b.sql (the pattern list was matched against the file only). *)
 Lemma legacy_refuted_dir_pattern :
   exists t exts lines args outs p,
     linted_legacy t exts (parse_lines lines) args = Some outs /\ In p (map snd outs) /\
@@ -518,7 +518,7 @@ Proof.
   eexists. exists [n_temp; n_bsql]. split; [vm_compute; reflexivity|]. split; [cbn; auto | vm_compute; reflexivity].
 Qed.
 
-(** Before f56e47c: a file reached through two arguments was processed twice. *)
+(** Before cbbae86: a file reached through two arguments was processed twice. *)
 Lemma legacy_refuted_once :
   exists t exts args outs, linted_legacy t exts [] args = Some outs /\ ~ NoDup (map snd outs).
 Proof.
@@ -527,7 +527,7 @@ Proof.
   eexists. split; [vm_compute; reflexivity|]. cbn. intro H. inversion H as [|x l Hn Hd]. apply Hn. now left.
 Qed.
 
-(** Before a596558: a directory named like a sql file was a candidate and the run aborted. *)
+(** Before 9fb14d1: a directory named like a sql file was a candidate and the run aborted. *)
 Lemma legacy_refuted_dir_candidate :
   exists t exts args, (forall a, In a (effective_args args) -> lookup t (a_path a) <> None) /\
                       linted_legacy t exts [] args = None.
